@@ -83,11 +83,12 @@ def cmp_arrays(a, b, rtol, atol=0.0):
     return bool(err <= rtol * scale + atol), err, scale
 
 
-def compare_dict(live, ref, rtol, atol_of=None, skip=()):
+def compare_dict(live, ref, rtol, atol_of=None, skip=(), stats=None):
     """Return list of (key, err, scale) for every key where live differs from ref beyond tolerance.
 
     atol_of(key) -> absolute slack (a round-off allowance tied to a neighbourhood scale)."""
     bad = []
+    worst = 0.0
     for k, rv in ref.items():
         if k in skip:
             continue
@@ -98,6 +99,12 @@ def compare_dict(live, ref, rtol, atol_of=None, skip=()):
         ok, err, scale = cmp_arrays(live[k], rv, rtol, atol)
         if not ok:
             bad.append((k, err, scale))
+        elif err > 0.0:
+            allowed = rtol * scale + atol
+            if allowed > 0.0:
+                worst = max(worst, err / allowed)
+    if stats is not None:
+        stats["worst"] = max(stats.get("worst", 0.0), worst)
     return bad
 
 
